@@ -28,6 +28,8 @@ class Prop:
     extra_assumptions = []
     level = "proof"
     claimed = True
+    impl_env = None
+    pre_make = None      # optional hook run before the Coq build (regenerates Gen/ files from /repo)
     level_text = ""
     level_note = ("Trusted: Coq 8.16.1 kernel; Sem/ (hand-written semantics of Rust integers in both overflow profiles, slices, panics, "
                   "io::Error kinds, collaborators as parameters); the hand-written model (translator style) is tied to the code by "
@@ -110,7 +112,8 @@ def write_replay(pid, name, obj):
 def run_cases(P, exes, drv, cases, model_ok=True, profs=("debug", "release")):
     """implementation traces per profile"""
     lines = [c.line for c in cases]
-    return {prof: run.run_impl(exes[prof], lines) for prof in profs}
+    env = dict(build.ENV, **P.impl_env) if getattr(P, 'impl_env', None) else None
+    return {prof: run.run_impl(exes[prof], lines, env) for prof in profs}
 
 
 def evaluate(P, cases, res, drv, model_ok=True):
@@ -163,6 +166,8 @@ def main(P, tier, replay=None):
     exes = drv = None
     with build.lock():
         try:
+            if P.pre_make:
+                P.pre_make(ctx)
             make_log = build.coq_make(targets=P.coq_targets, fresh=P.coq_targets)
             assumptions = audit.parse_assumptions(make_log)
         except build.BuildError as e:
@@ -175,7 +180,7 @@ def main(P, tier, replay=None):
             model_ok = False
             ctx["open_obligations"].append({"kind": "model", "what": e.what, "log": e.log[-3000:]})
         try:
-            exes = build.cargo_harness(P.harness)
+            exes = build.cargo_harness(P.harness) if P.harness else None
         except build.BuildError as e:
             print("ERROR: cannot build the harness against /repo: %s\n%s" % (e.what, e.log[-3000:]))
             sys.exit(2)
@@ -192,8 +197,11 @@ def main(P, tier, replay=None):
         cases = [Case(j["case"]["line"], j["case"].get("meta", {}))]
     else:
         cases = corpus_cases(pid) + P.gen(tier, rng)
-    res = run_cases(P, exes, drv, cases, model_ok)
-    mism, fails = evaluate(P, cases, res, drv, model_ok)
+    if P.harness:
+        res = run_cases(P, exes, drv, cases, model_ok)
+        mism, fails = evaluate(P, cases, res, drv, model_ok)
+    else:
+        cases, res, mism, fails = [], {"debug": [], "release": []}, [], []
     P.extra(ctx)
 
     if replay:
@@ -282,11 +290,13 @@ def main(P, tier, replay=None):
             "mismatches": len(mism), "checker_failures": len(fails),
             "profiles": ["debug (overflow-checks on)", "release (overflow-checks off)"],
         },
-        "assumptions": P.extra_assumptions,
+        "assumptions": P.extra_assumptions + ctx.get("assumptions_extra", []),
         "wall_s": round(time.time() - t0, 2),
         "violations": len(violations),
     }
     ev["coverage"].update(ctx.get("coverage_extra", {}))
+    if getattr(P, "explanation", None):
+        ev["coverage"]["explanation"] = P.explanation
     with open(ev_path, "w") as f:
         json.dump(ev, f, indent=1)
 
